@@ -3,9 +3,14 @@
 FORMATS = ("yaml", "json", "bin")
 
 
+def _act(a):
+    """schedule entries are "step" | format (medium from the case's "via") | [action, medium]"""
+    return a[0] if isinstance(a, list) else a
+
+
 def nontrivial(d):
     # at least one save/load, and (unless the schedule ends there) something observed after it
-    s = d["sched"]
+    s = [_act(a) for a in d["sched"]]
     first = next((i for i, a in enumerate(s) if a in FORMATS), None)
     return first is not None and "step" in s[first:]
 
@@ -15,14 +20,14 @@ def nontrivial(d):
 # the known classes (an unexplained failure in the same case keeps the case a violation).
 
 # F-C17-1: types that contain a `skip_serializing_if` field which is actually skipped in the state reached
-T_BIN_SKIPPED = {"SetSpeedTrainSim.grades", "FuelConverter.init40", "Locomotive.init40", "LocomotiveSimulation.init40", "Consist.init40", "Locomotive.relaxed", "Locomotive.mu", "LocomotiveSimulation.relaxed", "SpeedLimitTrainSim.mu", "FuelConverter", "Generator", "ElectricDrivetrain", "ElectricDrivetrain.bel", "ReversibleEnergyStorage",
+T_BIN_SKIPPED = {"SetSpeedTrainSim.long", "ConsistSimulation.long", "LocomotiveSimulation.long", "SetSpeedTrainSim.grades", "FuelConverter.init40", "Locomotive.init40", "LocomotiveSimulation.init40", "Consist.init40", "Locomotive.relaxed", "Locomotive.mu", "LocomotiveSimulation.relaxed", "SpeedLimitTrainSim.mu", "FuelConverter", "Generator", "ElectricDrivetrain", "ElectricDrivetrain.bel", "ReversibleEnergyStorage",
                  "Locomotive.conv", "Locomotive.bel", "Locomotive.hybrid", "Consist", "LocomotiveSimulation", "LocomotiveSimulation.bel",
                  "LocomotiveSimulationVec", "ConsistSimulation", "SetSpeedTrainSim", "SetSpeedTrainSim.default",
                  "Network", "TrainConfig", "TrainSimBuilder", "TrainSimBuilder.init", "TrainSimBuilder.nan"}
 # F-C17-2: types that contain a `Location`
-T_BIN_LOCATION = {"Location", "Location.bounds", "SpeedLimitTrainSim", "SpeedLimitTrainSim.finished", "SpeedLimitTrainSim.grades"}
+T_BIN_LOCATION = {"SpeedLimitTrainSim.long", "Location", "Location.bounds", "SpeedLimitTrainSim", "SpeedLimitTrainSim.finished", "SpeedLimitTrainSim.grades"}
 # F-C17-3: types that contain a non-finite number in the state reached
-T_JSON_NONFINITE = {"SpeedLimitTrainSim.mu", "PathTpc.finished", "SpeedLimitTrainSim.finished", "SetSpeedTrainSim.default", "TrainSimBuilder.nan"}
+T_JSON_NONFINITE = {"SetSpeedTrainSim.long", "SpeedLimitTrainSim.long", "SpeedLimitTrainSim.mu", "PathTpc.finished", "SpeedLimitTrainSim.finished", "SetSpeedTrainSim.default", "TrainSimBuilder.nan"}
 
 
 def _cls(desc, e):
@@ -32,7 +37,8 @@ def _cls(desc, e):
         return None
     if e["fmt"] == "bin" and e.get("errclass") == "any" and e.get("locations", 0) > 0 and k in T_BIN_LOCATION:
         return "bin_location"
-    if e["fmt"] == "bin" and e.get("errclass") != "any" and e.get("skipped", 0) > 0 and k in T_BIN_SKIPPED:
+    # (a refused size or bytes behind a document are not what a skipped field produces)
+    if e["fmt"] == "bin" and e.get("errclass") not in ("any", "limit", "trailing") and e.get("skipped", 0) > 0 and k in T_BIN_SKIPPED:
         return "bin_skipped"
     if e["fmt"] == "json" and e.get("errclass") == "null" and e.get("nonfinite", 0) > 0 and k in T_JSON_NONFINITE:
         return "json_nonfinite"
@@ -52,7 +58,7 @@ def _sl_sig(which):
 # ---- selftest: one recorded field corrupted -> the trace spec must name the invariant at exactly that line
 
 def _corrupt(ev, pred, change, expect, nojson=False, after_json=False):
-    sched = {e["case"]: e["desc"]["sched"] for e in ev if e.get("ev") == "begin"}
+    sched = {e["case"]: [_act(a) for a in e["desc"]["sched"]] for e in ev if e.get("ev") == "begin"}
     json_ok = set()
     for i, e in enumerate(ev):
         c = e.get("case")
@@ -85,19 +91,31 @@ CORRUPT = {
     "json_number_2ulp_off": lambda ev: _corrupt(ev, _sl("json"), lambda e: e.update(load_ulps=2), ["LoadFidelity"]),
     "load_fails_unknown_class": lambda ev: _corrupt(ev, _sl("yaml"), lambda e: e.update(ok=False, stage="de", errclass="other"),
                                                     ["SaveLoadOk"]),
+    "file_load_fails_memory_load_ok": lambda ev: _corrupt(ev, lambda e: _sl("yaml")(e) and e.get("via") != "mem",
+                                                          lambda e: e.update(ok=False, stage="de", errclass="trailing"),
+                                                          ["SaveLoadOk", "MediumIndependent"]),
+    "file_load_differs_from_memory_load": lambda ev: _corrupt(ev, lambda e: _sl("json")(e) and e.get("via") != "mem",
+                                                              lambda e: e.update(dm=[1, 2]), ["MediumIndependent"]),
     "history_column_not_saved": lambda ev: _corrupt(ev, _sl("json"), lambda e: e.update(colmis=1), ["HistoryColumns"]),
     "start_digest": lambda ev: _corrupt(ev, lambda e: e.get("ev") == "Start", lambda e: e.update(d=[1, 2]), ["RefStable"]),
 }
 
 
 RULE = ("cases = every schedule over {step, yaml, json, bin} that TLC enumerates for every object kind in the bounded "
-        "Checkpoint configs (each step index is a checkpoint position) + pinned (kind x format) cases through temp files (incl. "
-        "index newtypes at 0, 1, u32::MAX-1, u32::MAX) + pinned train runs on a multi-grade corridor checkpointed 30..630 steps in + "
+        "Checkpoint configs (each step index is a checkpoint position) + every schedule of depth 2 over {step, format x medium} "
+        "(media: memory, from_reader, fresh file, other spelling of the format name, file written over the longer checkpoint of "
+        "an earlier run) for 16 kinds (quick: a sample of 800) + a sample of the depth-2 schedules of 'large' objects (documents "
+        "above 1 MiB: dense histories 600..3000 steps into a run, a 4000-link network) through files / readers + pinned (kind x "
+        "format) cases through temp files, over longer files, through from_reader and the alias spellings (incl. "
+        "index newtypes at 0, 1, u32::MAX-1, u32::MAX) + 5 pinned large cases + pinned train runs on a multi-grade corridor checkpointed 30..630 steps in + "
         "seeded random schedules on toy (dyadic) and realistic-scale objects with checkpoints up to 400 steps into a run; "
         "distinct = distinct case descriptors; non-trivial = at least one save/load followed by a step / use")
 
-ASSUME = ["objects are saved and loaded only through the public SerdeAPI (to_str/from_str, to_bincode/from_bincode, "
-          "to_file/from_file with temp files under the system temp dir)",
+ASSUME = ["objects are saved and loaded only through the public SerdeAPI (to_str/from_str, to_bincode/from_bincode, from_reader, "
+          "to_file/from_file with temp files under the system temp dir; format names as advertised: yaml|yml|json|bin in any "
+          "case, with or without a leading dot); Network::from_file's fallback to the legacy NetworkOld layout is not driven",
+          "medium 'over': the re-used path holds the document of the same case's object at the END of its checkpoint-free run, "
+          "written with to_file (for static kinds that document has the same length as the one written over it)",
           "observable trajectory = digest (60 bits of FNV-1a over the canonical value tree: sorted keys, floats by bit "
           "pattern) of every `state`, `history` and `i` sub-tree after each step plus the public getters force_max / mu / "
           "mass / assert_limits of every locomotive and consist; static types: digest of the result of using the object "
@@ -116,9 +134,13 @@ GROUP = dict(
     name="checkpoint", bin="avh_checkpoint",
     model_spec="MCCheckpoint.tla", trace_spec="CheckpointTrace.tla", trace_cfg="CheckpointTrace.cfg",
     models={
-        "quick": [dict(cfg="MCCheckpoint_quick.cfg", emit=True, max_emit=3000, workers=4, timeout=120),
+        "quick": [dict(cfg="MCCheckpoint_quick.cfg", emit=True, max_emit=2400, workers=4, timeout=120),
+                  dict(cfg="MCCheckpoint_media.cfg", emit=True, max_emit=800, workers=4, timeout=120),
+                  dict(cfg="MCCheckpoint_large.cfg", emit=True, max_emit=4, workers=2, timeout=120),
                   dict(cfg="MCCheckpoint_deepcheck.cfg", emit=False, workers=4, timeout=120)],
         "thorough": [dict(cfg="MCCheckpoint_quick.cfg", emit=True, workers=4, timeout=300),
+                     dict(cfg="MCCheckpoint_mediaall.cfg", emit=True, max_emit=5000, workers=4, timeout=300),
+                     dict(cfg="MCCheckpoint_largeall.cfg", emit=True, max_emit=60, workers=4, timeout=300),
                      dict(cfg="MCCheckpoint_deep.cfg", emit=True, max_emit=25000, workers=8, timeout=900)],
     },
     gen_n={"quick": 150, "thorough": 2000},
@@ -128,7 +150,7 @@ GROUP = dict(
     nontrivial=nontrivial,
     rule=RULE,
     props={
-        "C17": dict(invariants=["SaveLoadOk", "Idempotent", "LoadFidelity", "HistoryColumns", "Resume", "ResumeJsonTol", "RefStable",
+        "C17": dict(invariants=["SaveLoadOk", "MediumIndependent", "Idempotent", "LoadFidelity", "HistoryColumns", "Resume", "ResumeJsonTol", "RefStable",
                                 "NoPanic", "HarnessOk"],
                     assumptions=ASSUME, level="exploration", exhaustive=False),
     },
@@ -138,7 +160,9 @@ GROUP = dict(
     fault_models=[dict(cfg="MCCheckpoint_fault_skip.cfg", expect=["Stutter"]),     # a state field is #[serde(skip)] / reset by init()
                   dict(cfg="MCCheckpoint_fault_i.cfg", expect=["Stutter"]),        # the step counter is not serialised
                   dict(cfg="MCCheckpoint_fault_hist.cfg", expect=["Stutter"]),     # a history column is not serialised
-                  dict(cfg="MCCheckpoint_fault_drift.cfg", expect=["Idempotent", "Stutter"])],  # a parser that does not round-trip
+                  dict(cfg="MCCheckpoint_fault_drift.cfg", expect=["Idempotent", "Stutter"]),  # a parser that does not round-trip
+                  dict(cfg="MCCheckpoint_fault_tail.cfg", expect=["MediumIndependent", "SaveLoadOk"]),  # to_file does not truncate
+                  dict(cfg="MCCheckpoint_fault_cap.cfg", expect=["MediumIndependent", "SaveLoadOk"])],  # capped binary reader
     selftest_cases=6,
     corrupt=CORRUPT,
     # (a --replay run has no model part and a single case: nothing to complain about)
@@ -146,7 +170,12 @@ GROUP = dict(
                        "no save/load succeeded" if r["stats"].get("sl_ok", 0) == 0 else
                        "no step followed a successful load" if r["stats"].get("after_load_steps", 0) == 0 else
                        "steps never change the observable digest" if r["stats"].get("moved", 0) == 0 else
-                       "no save/load went through a file" if r["stats"].get("via_file", 0) == 0 else None),
+                       "no save/load went through a file" if r["stats"].get("via_file", 0) == 0 else
+                       "no save/load went through from_reader" if r["stats"].get("via_reader", 0) == 0 else
+                       "no save/load used another spelling of the format name" if r["stats"].get("via_alias", 0) == 0 else
+                       "no document was written over a longer one" if r["stats"].get("over_shorter", 0) == 0 else
+                       "no binary document above 1 MiB went through a file / reader" if r["stats"].get("big_bin_nonmem", 0) == 0 else
+                       "no text document above 1 MiB went through a file / reader" if r["stats"].get("big_text_nonmem", 0) == 0 else None),
 )
 
 ENGINE = dict(name="Checkpoint", path="specs/Checkpoint.tla", serves_properties=["C17"],
@@ -171,8 +200,10 @@ MANIFEST = {
                      "simulations, networks, est-time networks, locations) and checks that SaveLoad is a stuttering step of the "
                      "observable trajectory on the abstract object; every schedule (quick: depth 4 / 3; thorough: a 25 000 sample "
                      "of depth 6 / 4) plus seeded realistic-scale cases with checkpoints up to 400 steps into a run is replayed on "
-                     "real objects through the public SerdeAPI; TLC then requires on every recorded line: the round trip returns "
-                     "Ok, a second round trip has the same digest, loaded numbers are bit-exact (json: within 1 ulp), and every "
+                     "real objects through the public SerdeAPI; further configs enumerate the MEDIUM of each SaveLoad (memory, from_reader, "
+                     "fresh file, alias spelling of the format, file written over a longer document) and the SIZE CLASS of the object "
+                     "(large = documents above 1 MiB); TLC then requires on every recorded line: the round trip returns "
+                     "Ok whatever the medium and size, a load through any medium gives the object the load through memory gives, a second round trip has the same digest, loaded numbers are bit-exact (json: within 1 ulp), and every "
                      "step after a load appends the digest of the checkpoint-free run (json: within 1e-9 relative).",
                 note=_NOTE),
 }
